@@ -196,6 +196,43 @@ def run(ctx):
         guarded = 'DIRECTIO' in pc.key
         ctx.ob('GUARDDOM', 'padding is written only under a condition derived from the DIRECTIO card', mk, guarded,
                {'path_condition': pretty(pc)[:300]}, node=e.node)
+        # a card that comes from the template or from an input recording is TEXT ('0' is a non-empty, hence true, string): on
+        # the paths where the card is a string the padding decision must go through int()/float(), never through the text
+        conds_all = dict(T.conditions(pc))
+        T._basic_conds(pc, conds_all)
+        str_tests = {k: c for k, c in conds_all.items()
+                     if (T._isinstance_info(c) or (None, set()))[1] == {'str'} and 'DIRECTIO' in k}
+        asg_text = {k: True for k in str_tests}
+        # (cards that do not parse as a number are outside the property's quantifier -- DIRECTIO 0/1/absent: no exception arm)
+        asg_text.update({k: False for k in conds_all if k.startswith("[1*exc(") or 'exc(' in k.split('==')[0][:12]})
+        pc_text = T.assume(pc, asg_text) if asg_text else pc
+
+        def text_uses(t, under_num=False):
+            out = []
+            for a in t.atoms():
+                is_card = (a.kind == 'call' and a.args[0] in ('.get', 'get') and len(a.args[1]) >= 2 and a.args[1][1].key == lift('DIRECTIO').key) \
+                    or (a.kind == 'sub' and a.args[1].key == lift('DIRECTIO').key)
+                if is_card:
+                    if not under_num:
+                        out.append(a)
+                    continue
+                if a.kind == 'cmp' and a.args[0] in ('in', 'not in'):
+                    continue
+                inner = under_num or (a.kind == 'call' and a.args[0] in ('trunc', 'int', 'float', 'round'))
+                for x in a.args:
+                    for y in (x if isinstance(x, tuple) else (x,)):
+                        if isinstance(y, Term):
+                            out += text_uses(y, inner)
+                        elif isinstance(y, tuple):
+                            for z in y:
+                                if isinstance(z, Term):
+                                    out += text_uses(z, inner)
+            return out
+        if str_tests:
+            raw = text_uses(pc_text)
+            ctx.ob('RESIDUE', 'writer: a textual DIRECTIO card decides the padding through its numeric value (int(...)), not as text or '
+                   'by truthiness', mk, not raw, {'padding_condition_for_text_cards': pretty(pc_text)[:300]}, node=e.node,
+                   construct='_make_header [DIRECTIO test]')
         bad = []
         for L in range(1, 65):
             v = eval_closed(padterm, las[0], L - 1, {})
